@@ -730,6 +730,56 @@ func init() {
 					}
 					judgeExpr(c, model.Binary{Op: "+", L: model.Var{Name: "x"}, R: model.Var{Name: "x"}}, map[string]model.Value{"x": nn.eq}, "native-number")
 				}})
+			// every integer literal from 0 to 70000 (and the neighbours of every power of two and ten beyond), alone, negated,
+			// in a sum and a product, as float literal N.0 and N.5: a literal evaluates to the number it spells
+			{
+				const chunk = 500
+				var ladder []int64
+				for n := int64(0); n <= 70000; n++ {
+					ladder = append(ladder, n)
+				}
+				for p := 17; p < 63; p++ {
+					for d := int64(-2); d <= 2; d++ {
+						ladder = append(ladder, int64(1)<<p+d)
+					}
+				}
+				for t := int64(100000); t < 1e18; t *= 10 {
+					ladder = append(ladder, t-1, t, t+1)
+				}
+				nChunks := (len(ladder) + chunk - 1) / chunk
+				secs = append(secs, core.Section{Name: "integer-literal-ladder", Exhaustive: true, N: nChunks * 3,
+					Run: func(c *core.Ctx, i int) {
+						form := i % 3
+						lo := (i / 3) * chunk
+						hi := lo + chunk
+						if hi > len(ladder) {
+							hi = len(ladder)
+						}
+						var src, want strings.Builder
+						for _, n := range ladder[lo:hi] {
+							switch form {
+							case 0:
+								fmt.Fprintf(&src, "{{ %d }},{{ -%d }};", n, n)
+								fmt.Fprintf(&want, "%d,%d;", n, -n)
+							case 1:
+								fmt.Fprintf(&src, "{{ 2 * %d - 46 }},{{ x == %d ? 1 : 0 }},{{ %d + 0 == x }};", n, n, n)
+								fmt.Fprintf(&want, "%d,%d,%d;", 2*n-46, b2i(n == 1023), b2i(n == 1023))
+							default:
+								if n >= 1<<52 {
+									continue
+								}
+								fmt.Fprintf(&src, "{{ %d.0 }},{{ %d.5 + 0.25 }};", n, n)
+								fmt.Fprintf(&want, "%s,%s;", model.FormatFloat(float64(n)), model.FormatFloat(float64(n)+0.75))
+							}
+						}
+						c.Input(map[string]any{"literals_from": ladder[lo], "literals_to": ladder[hi-1], "form": form})
+						c.Nontrivial(fmt.Sprint("ladder", i))
+						got := evalString(c, src.String(), map[string]any{"x": 1023})
+						if !got.Panicked && (got.Err != nil || got.Out != want.String()) {
+							c.Violation("integer-literal-ladder", fmt.Sprintf("literals %d..%d (form %d): %s", ladder[lo], ladder[hi-1], form, firstDifference(got, want.String())), map[string]any{"source": clipS(src.String(), 2000)})
+						}
+					}})
+			}
 			// operands that are fields of bound values with methods (String, Error, MarshalText): such a value is the object of its
 			// exported fields like any other struct - directly, behind a pointer, as element and as map value
 			methodVals := []struct {
@@ -1030,4 +1080,29 @@ func boundaryCases() []func(c *core.Ctx) {
 		})
 	}
 	return out
+}
+
+func b2i(b bool) int {
+	if b {
+		return 1
+	}
+	return 0
+}
+
+// firstDifference says where an outcome departs from the wanted text
+func firstDifference(got Outcome, want string) string {
+	if got.Err != nil {
+		return "error " + got.Err.Error()
+	}
+	g, w := strings.Split(got.Out, ";"), strings.Split(want, ";")
+	for k := range w {
+		if k >= len(g) || g[k] != w[k] {
+			have := "(nothing)"
+			if k < len(g) {
+				have = g[k]
+			}
+			return fmt.Sprintf("item %d is %q, want %q", k, have, w[k])
+		}
+	}
+	return fmt.Sprintf("output has %d items, want %d", len(g), len(w))
 }
